@@ -3,10 +3,11 @@ import WfModel.Lemmas.Atoms
 /-!
 # A concrete scheme, concrete atoms, concrete renderings
 
-Scheme `i : Int`, `b : Bool`, `tcp.port : Int`, `ip.src : Ip`, `http.host : Bytes`. Two
+Scheme `i : Int`, `b : Bool`, `tcp.port : Int`, `ip.src : Ip`, `http.host : Bytes`,
+`tcp.ports : Array Int`, `http.headers : Map Bytes`, `m : Map (Array Bytes)`, `flags : Map Bool`. Two
 spellings of one filter — `tcp.port ge 80 and not (i ==  -5 or b)` and
 `tcp.port>=80&&!(i eq -5||b)` — and a third one with a hexadecimal literal; a filter with a byte
-string and an address. Used by the non-vacuity examples of `Props/C01Atoms.lean`.
+string and an address; atoms with index suffixes, `in { … }` and `contains`. Used by the non-vacuity examples of `Props/C01Atoms.lean`.
 Helper lemmas only.
 -/
 namespace WfModel.Atoms
@@ -16,7 +17,9 @@ open WfModel WfModel.Render
 def cScheme : Scheme :=
   { fields := [⟨"i".toList, .int, false⟩, ⟨"b".toList, .bool, false⟩,
       ⟨"tcp.port".toList, .int, false⟩, ⟨"ip.src".toList, .ip, false⟩,
-      ⟨"http.host".toList, .bytes, false⟩],
+      ⟨"http.host".toList, .bytes, false⟩,
+      ⟨"tcp.ports".toList, .array .int, false⟩, ⟨"http.headers".toList, .map .bytes, false⟩,
+      ⟨"m".toList, .map (.array .bytes), false⟩, ⟨"flags".toList, .map .bool, false⟩],
     funcs := [], lists := [] }
 
 def cEnv : PEnv := { scheme := cScheme, st := {} }
@@ -188,5 +191,175 @@ theorem cRenders₅ : Renders cEnv (atoms cScheme) false (.atom aI5Word) "i eq5"
 
 theorem cRenders₆ : Renders cEnv (atoms cScheme) false (.atom aI5Sym) "i==5".toList :=
   Renders.cast (.simple (.atom aI5Sym)) txt_aI5Sym
+
+/-! ### index suffixes, `in { … }`, `contains` -/
+
+theorem digits10_443 : digits 10 443 = ['4', '4', '3'] := by
+  rw [digits_big (by omega) (by omega), digits_big (by omega) (by omega),
+    digits_small (by omega)]; decide
+
+theorem digits10_8000 : digits 10 8000 = ['8', '0', '0', '0'] := by
+  rw [digits_big (by omega) (by omega), digits_big (by omega) (by omega),
+    digits_big (by omega) (by omega), digits_small (by omega)]; decide
+
+theorem digits10_8100 : digits 10 8100 = ['8', '1', '0', '0'] := by
+  rw [digits_big (by omega) (by omega), digits_big (by omega) (by omega),
+    digits_big (by omega) (by omega), digits_small (by omega)]; decide
+
+theorem digits16_0 : digits 16 0 = ['0'] := by rw [digits_small (by omega)]; decide
+
+/-- `tcp.ports[0] == 80` -/
+def aPorts0 : CAtom :=
+  ⟨"tcp.ports".toList, [.arr [] 0 []], .ord [' '] .eq true [' '] (.int .dec 80)⟩
+/-- `tcp.ports[ 0x0\n]eq 0x50`: layout inside the brackets, hexadecimal index and literal, the
+word operator glued to `]` -/
+def aPorts0Alt : CAtom :=
+  ⟨"tcp.ports".toList, [.arr [' '] 0 ['\n'] .hex], .ord [] .eq false [' '] (.int .hex 80)⟩
+/-- `http.headers["host"] contains "x"` -/
+def aHdr : CAtom :=
+  ⟨"http.headers".toList, [.plainKey [] "host".toList []],
+    .contains [' '] [' '] (.quoted [(.lit, 120)])⟩
+/-- `http.headers[ "ho\x73t" ]contains"\x78"`: the same key and needle with escapes -/
+def aHdrAlt : CAtom :=
+  ⟨"http.headers".toList,
+    [.key [' '] [(.lit, 104), (.lit, 111), (.hex false false, 115), (.lit, 116)] [' ']],
+    .contains [] [] (.quoted [(.hex false false, 120)])⟩
+/-- `m["a"][0] == "v"`: a chain through `Map (Array Bytes)` -/
+def aM : CAtom :=
+  ⟨"m".toList, [.plainKey [] "a".toList [], .arr [] 0 []],
+    .ord [' '] .eq true [' '] (.quoted [(.lit, 118)])⟩
+/-- `flags["x"]`: a bare atom of type `Bool` behind a key -/
+def aFlag : CAtom := ⟨"flags".toList, [.plainKey [] "x".toList []], .isTrue⟩
+/-- `tcp.port in {80 443 8000..8100}` -/
+def aIn : CAtom :=
+  .inSet "tcp.port".toList [' '] [' '] []
+    [.single .dec 80 [' '], .single .dec 443 [' '], .range .dec 8000 .dec 8100 []]
+/-- `tcp.port in{ 0x50 443\n8000..8100 }` -/
+def aInAlt : CAtom :=
+  .inSet "tcp.port".toList [' '] [] [' ']
+    [.single .hex 80 [' '], .single .dec 443 ['\n'], .range .dec 8000 .dec 8100 [' ']]
+
+theorem txt_aPorts0 : (atoms cScheme).txt aPorts0 = "tcp.ports[0] == 80".toList := by
+  show "tcp.ports".toList ++ (('[' :: ([] ++ (digits 10 0 ++ ([] ++ [']']))) ++ []) ++
+    ([' '] ++ ("==".toList ++ ([' '] ++ digits 10 80)))) = _
+  rw [digits10_0, digits10_80]; rfl
+
+theorem txt_aPorts0Alt : (atoms cScheme).txt aPorts0Alt = "tcp.ports[ 0x0\n]eq 0x50".toList := by
+  show "tcp.ports".toList ++ (('[' :: ([' '] ++ (('0' :: 'x' :: digits 16 0) ++ (['\n'] ++ [']']))) ++ []) ++
+    ([] ++ ("eq".toList ++ ([' '] ++ ('0' :: 'x' :: digits 16 80))))) = _
+  rw [digits16_0, digits16_80]; rfl
+
+theorem txt_aHdr : (atoms cScheme).txt aHdr = "http.headers[\"host\"] contains \"x\"".toList := by
+  decide
+
+theorem txt_aHdrAlt :
+    (atoms cScheme).txt aHdrAlt = "http.headers[ \"ho\\x73t\" ]contains\"\\x78\"".toList := by
+  decide
+
+theorem txt_aM : (atoms cScheme).txt aM = "m[\"a\"][0] == \"v\"".toList := by
+  show "m".toList ++ ((Ix.txt (.plainKey [] "a".toList []) ++
+    ('[' :: ([] ++ (digits 10 0 ++ ([] ++ [']']))) ++ [])) ++
+      ([' '] ++ ("==".toList ++ ([' '] ++ (Lit.quoted [(.lit, 118)]).txt)))) = _
+  rw [digits10_0]; decide
+
+theorem txt_aFlag : (atoms cScheme).txt aFlag = "flags[\"x\"]".toList := by decide
+
+/-! integer renderings of non-negative values without unfolding `digits` in the kernel (it is
+defined by well-founded recursion: cheap on `80`, hopeless on `8000`) -/
+
+theorem renderInt_dec_nat (n : Nat) : renderInt .dec (n : Int) = digits 10 n := by
+  simp only [renderInt, renderDec]
+  have : ¬ ((n : Int) < 0) := by omega
+  simp [this]
+
+theorem renderInt_hex_nat (n : Nat) : renderInt .hex (n : Int) = '0' :: 'x' :: digits 16 n := by
+  simp [renderInt, renderHex]
+
+theorem r80 : renderInt .dec 80 = ['8', '0'] := (renderInt_dec_nat 80).trans digits10_80
+theorem r443 : renderInt .dec 443 = ['4', '4', '3'] := (renderInt_dec_nat 443).trans digits10_443
+theorem r8000 : renderInt .dec 8000 = ['8', '0', '0', '0'] :=
+  (renderInt_dec_nat 8000).trans digits10_8000
+theorem r8100 : renderInt .dec 8100 = ['8', '1', '0', '0'] :=
+  (renderInt_dec_nat 8100).trans digits10_8100
+theorem rx80 : renderInt .hex 80 = ['0', 'x', '5', '0'] := by
+  rw [show (80 : Int) = ((80 : Nat) : Int) from rfl, renderInt_hex_nat, digits16_80]
+
+theorem txt_aIn : (atoms cScheme).txt aIn = "tcp.port in {80 443 8000..8100}".toList := by
+  have e : (atoms cScheme).txt aIn = "tcp.port".toList ++ ([] ++ ([' '] ++ ("in".toList ++
+    ([' '] ++ ('{' :: ([] ++ ((renderInt .dec 80 ++ ([' '] ++ (renderInt .dec 443 ++ ([' '] ++
+      ((renderInt .dec 8000 ++ ('.' :: '.' :: renderInt .dec 8100)) ++ ([] ++ [])))))) ++
+        ['}']))))))) := rfl
+  rw [e, r80, r443, r8000, r8100]; decide
+
+theorem txt_aInAlt : (atoms cScheme).txt aInAlt = "tcp.port in{ 0x50 443\n8000..8100 }".toList := by
+  have e : (atoms cScheme).txt aInAlt = "tcp.port".toList ++ ([] ++ ([' '] ++ ("in".toList ++
+    ([] ++ ('{' :: ([' '] ++ ((renderInt .hex 80 ++ ([' '] ++ (renderInt .dec 443 ++ (['\n'] ++
+      ((renderInt .dec 8000 ++ ('.' :: '.' :: renderInt .dec 8100)) ++ ([' '] ++ [])))))) ++
+        ['}']))))))) := rfl
+  rw [e, rx80, r443, r8000, r8100]; decide
+
+/-- `tcp.port in {80 443 8000..8100} and http.headers["host"] contains "x" or m["a"][0] == "v"` -/
+def cSk₇ : Sk CAtom := .chain (.atom aIn) [(.and, .atom aHdr), (.or, .atom aM)]
+
+/-- the same filter, every atom spelled differently:
+`tcp.port in{ 0x50 443⏎8000..8100 }&&http.headers[ "ho\x73t" ]contains"\x78"||m["a"][0] == "v"` -/
+def cSk₈ : Sk CAtom := .chain (.atom aInAlt) [(.and, .atom aHdrAlt), (.or, .atom aM)]
+
+def cText₇ : Input :=
+  "tcp.port in {80 443 8000..8100} and http.headers[\"host\"] contains \"x\" or m[\"a\"][0] == \"v\"".toList
+
+def cText₈ : Input :=
+  "tcp.port in{ 0x50 443\n8000..8100 }&&http.headers[ \"ho\\x73t\" ]contains\"\\x78\"||m[\"a\"][0] == \"v\"".toList
+
+/-- the AST both stand for: `or[ and[ tcp.port in {80..80, 443..443, 8000..8100},
+http.headers["host"] contains "x" ], m["a"][0] == "v" ]` -/
+def cAst₇ : LExpr :=
+  .combining .or
+    [.combining .and
+      [.comparison (.field 2 []) (.oneOf (.int [(80, 80), (443, 443), (8000, 8100)])),
+       .comparison (.field 6 [.key "host".toList]) (.contains { fmt := .quoted, data := [120] })],
+     .comparison (.field 7 [.key "a".toList, .arr 0])
+       (.ordering .eq (.bytes { fmt := .quoted, data := [118] }))]
+
+theorem cRenders₇ : Renders cEnv (atoms cScheme) true cSk₇ cText₇ :=
+  Renders.cast
+    (.chain (.atom aIn)
+      (.cons (o := .and) [' '] "and" [' '] rfl (by decide) rfl rfl (.atom aHdr)
+        (.cons (o := .or) [' '] "or" [' '] rfl (by decide) rfl rfl (.atom aM) (.nil _))))
+    (by rw [txt_aIn, txt_aHdr, txt_aM]; rfl)
+
+theorem cRenders₈ : Renders cEnv (atoms cScheme) true cSk₈ cText₈ :=
+  Renders.cast
+    (.chain (.atom aInAlt)
+      (.cons (o := .and) [] "&&" [] rfl (by decide) rfl rfl (.atom aHdrAlt)
+        (.cons (o := .or) [] "||" [] rfl (by decide) rfl rfl (.atom aM) (.nil _))))
+    (by rw [txt_aInAlt, txt_aHdrAlt, txt_aM]; rfl)
+
+/-- `tcp.ports[0] == 80 and not flags["x"]` -/
+def cSk₉ : Sk CAtom := .chain (.atom aPorts0) [(.and, .not (.atom aFlag))]
+/-- `tcp.ports[ 0x0⏎]eq 0x50&&!flags["x"]` -/
+def cSk₁₀ : Sk CAtom := .chain (.atom aPorts0Alt) [(.and, .not (.atom aFlag))]
+
+def cText₉ : Input := "tcp.ports[0] == 80 and not flags[\"x\"]".toList
+def cText₁₀ : Input := "tcp.ports[ 0x0\n]eq 0x50&&!flags[\"x\"]".toList
+
+def cAst₉ : LExpr :=
+  .combining .and
+    [.comparison (.field 5 [.arr 0]) (.ordering .eq (.int 80)),
+     .unaryNot (.comparison (.field 8 [.key "x".toList]) .isTrue)]
+
+theorem cRenders₉ : Renders cEnv (atoms cScheme) true cSk₉ cText₉ :=
+  Renders.cast
+    (.chain (.atom aPorts0)
+      (.cons (o := .and) [' '] "and" [' '] rfl (by decide) rfl rfl
+        (.not "not" [' '] (by decide) rfl rfl (.atom aFlag)) (.nil _)))
+    (by rw [txt_aPorts0, txt_aFlag]; rfl)
+
+theorem cRenders₁₀ : Renders cEnv (atoms cScheme) true cSk₁₀ cText₁₀ :=
+  Renders.cast
+    (.chain (.atom aPorts0Alt)
+      (.cons (o := .and) [] "&&" [] rfl (by decide) rfl rfl
+        (.not "!" [] (by decide) rfl (by decide) (.atom aFlag)) (.nil _)))
+    (by rw [txt_aPorts0Alt, txt_aFlag]; rfl)
 
 end WfModel.Atoms
